@@ -113,7 +113,7 @@ func dates(r *lp.Rng) []sample {
 func dateTimes(r *lp.Rng) []sample {
 	y, m, d := genDate(r)
 	if y == 0 {
-		y = 1
+		y = 4 // RFC 3339 has no year 0; year 4 is a leap year like year 0, so the day stays valid
 	}
 	date := pad(y, 4) + "-" + pad(m, 2) + "-" + pad(d, 2)
 	hh, mm, ss := r.Intn(24), r.Intn(60), r.Intn(60)
